@@ -20,7 +20,7 @@ pub static PROP: Prop = Prop {
         "every case is self-checked R1(R2(x)) = x; a self-check failure aborts the run as inconclusive (exit 2), never as a violation",
     ],
     extra: super::no_extra,
-    fuzz_runs: 50000,
+    fuzz_runs: 200000,
 };
 
 #[derive(Debug, Clone, Copy, PartialEq, Eq)]
